@@ -169,20 +169,27 @@ Fixpoint pll_queries (s : pll) (us : list upd) : list (option f64) :=
 
 (* ------------------------------------------------------------------ *)
 (* Property oracle, written from the property text over a trace
-   (update, calls received by the clock); it never calls pll_do.
+   (update, calls received by the clock); it never calls pll_do.  It decides
+   the whole call sequence -- none / Step / Adjust, update by update:
 
-   - a Step happens only while the initial step is awaited: at most once per
-     clock epoch as seen by the controller, before any slewing in that epoch,
-     more than 2 s after the first update of that epoch, with weight > 3 and
-     |offset| > 1 ms, and by exactly the measured offset (for offset =
-     MinInt64 the code steps by MinInt64+1: Inv(Inv(MinInt64)); accepted and
-     reported as a boundary observation);
-   - an Adjust has duration > 0 and a finite frequency; when less than 2^32 s
-     have passed since the previous update its duration is at most the elapsed
-     time rounded up to whole seconds and |offset| <= 500 ppm of the duration;
-   - the update that observes a new epoch (and the very first one) makes no
-     call, and slewing resumes only after the 2 s initial-step wait has run
-     again (restart of the start-up sequence);
+   Per clock epoch as seen by the controller (a maximal run of updates that
+   report the same epoch; the first update of a history also starts one):
+   - the update that observes the new epoch makes no call (the start-up
+     sequence restarts there; its reading is the start of the epoch);
+   - then the controller waits for its initial step: no call at all until the
+     first update that comes more than 2 s after the start of the epoch with a
+     weight above 3.  At that update the initial step is due: exactly one
+     Step, by exactly the measured offset, if |offset| > 1 ms; no call
+     otherwise.  (For offset = MinInt64 the code steps by MinInt64+1:
+     Inv(Inv(MinInt64)); accepted and reported as a boundary observation.)
+   - after that update there is never a Step in this epoch; an update makes
+     either no call or exactly one Adjust.  An Adjust has a finite frequency;
+     when less than 2^32 s have passed since the previous update its duration
+     is > 0, at most the elapsed time rounded up to whole seconds, and
+     |offset| <= 500 ppm of the duration (so no Adjust at an unchanged
+     reading).  Once tracking (an Adjust was made in this epoch) every update
+     at a later reading slews, i.e. makes its Adjust; the moment tracking
+     begins is not fixed by the property.
    - no panic while clock readings are non-decreasing; once a reading went
      backwards the property says nothing and the rest is accepted. *)
 
@@ -192,7 +199,7 @@ Record ost := mkOst {
   o_prev : Z;       (* previous reading *)
   o_epoch : Z;      (* epoch seen at the previous update *)
   o_start : Z;      (* reading of the first update of the current epoch *)
-  o_stepped : bool; (* a Step was made in the current epoch *)
+  o_decided : bool; (* the initial-step wait of the current epoch is over *)
   o_slewing : bool  (* an Adjust was made in the current epoch *)
 }.
 
@@ -205,52 +212,47 @@ Definition ceil_div (x y : Z) : Z := - ((- x) / y).
 Definition step_arg_ok (off x : Z) : bool :=
   (x =? off) || ((off =? min_i64) && (x =? min_i64 + 1)).
 
-Definition event_ok (o : ost) (u : upd) (e : event) : bool :=
-  match e with
-  | EPanic => false
-  | EStep x =>
-      negb (o_stepped o) && negb (o_slewing o)
-      && (step_wait_ns <? u_now u - o_start o)
-      && fgt (u_weight u) c_3
-      && (step_min_ns <? Z.abs (u_off u))
-      && step_arg_ok (u_off u) x
-  | EAdjust off dur freq =>
-      (step_wait_ns <? u_now u - o_start o)
-      && fis_finite freq
-      && (if u_now u - o_prev o <? max_gap_ns then
-            (0 <? dur)
-            && (dur <=? sec_ns * ceil_div (u_now u - o_prev o) sec_ns)
-            && (2000 * Z.abs off <=? dur)
-          else true)
-  end.
+(* the initial step is due at this update *)
+Definition step_due (o : ost) (u : upd) : bool :=
+  (step_wait_ns <? u_now u - o_start o) && fgt (u_weight u) c_3.
 
-Definition ost_event (o : ost) (e : event) : ost :=
-  match e with
-  | EStep _ => mkOst (o_started o) (o_mono o) (o_prev o) (o_epoch o) (o_start o) true (o_slewing o)
-  | EAdjust _ _ _ => mkOst (o_started o) (o_mono o) (o_prev o) (o_epoch o) (o_start o) (o_stepped o) true
-  | EPanic => o
-  end.
+Definition adjust_ok (o : ost) (u : upd) (off dur : Z) (freq : f64) : bool :=
+  fis_finite freq
+  && (if u_now u - o_prev o <? max_gap_ns then
+        (0 <? dur)
+        && (dur <=? sec_ns * ceil_div (u_now u - o_prev o) sec_ns)
+        && (2000 * Z.abs off <=? dur)
+      else true).
 
-Definition is_panic (e : event) : bool := match e with EPanic => true | _ => false end.
+Definition no_call (evs : list event) : bool := match evs with [] => true | _ => false end.
+
+(* one update within the current epoch: returns (accepted, decided', slewing') *)
+Definition ost_calls (o : ost) (u : upd) (evs : list event) : bool * bool * bool :=
+  if negb (o_decided o) then
+    if step_due o u then
+      (if step_min_ns <? Z.abs (u_off u)
+       then match evs with [EStep x] => step_arg_ok (u_off u) x | _ => false end
+       else no_call evs,
+       true, false)
+    else (no_call evs, false, false)
+  else
+    match evs with
+    | [] => (negb (o_slewing o) || (u_now u <=? o_prev o), true, o_slewing o)
+    | [EAdjust off dur freq] => (adjust_ok o u off dur freq, true, true)
+    | _ => (false, true, o_slewing o)
+    end.
 
 (* one update: returns (accepted, next oracle state) *)
 Definition ost_step (o : ost) (u : upd) (evs : list event) : bool * ost :=
   let mono := o_mono o && (negb (o_started o) || (o_prev o <=? u_now u)) in
   if negb mono then
-    (true, mkOst true false (u_now u) (u_epoch u) (o_start o) (o_stepped o) (o_slewing o))
+    (true, mkOst true false (u_now u) (u_epoch u) (o_start o) (o_decided o) (o_slewing o))
   else if negb (o_started o) || negb (o_epoch o =? u_epoch u) then
     (* first update / new epoch observed: restart, no call allowed *)
-    (match evs with [] => true | _ => false end,
-     mkOst true true (u_now u) (u_epoch u) (u_now u) false false)
+    (no_call evs, mkOst true true (u_now u) (u_epoch u) (u_now u) false false)
   else
-    match evs with
-    | [] => (true, mkOst true true (u_now u) (u_epoch u) (o_start o) (o_stepped o) (o_slewing o))
-    | [e] =>
-        let o' := ost_event o e in
-        (event_ok o u e,
-         mkOst true true (if is_panic e then o_prev o else u_now u) (u_epoch u) (o_start o) (o_stepped o') (o_slewing o'))
-    | _ => (false, o)
-    end.
+    let '(ok, dec, sl) := ost_calls o u evs in
+    (ok, mkOst true true (u_now u) (u_epoch u) (o_start o) dec sl).
 
 Fixpoint C19_ok_from (o : ost) (tr : list (upd * list event)) : bool :=
   match tr with
